@@ -535,15 +535,8 @@ func doSync(h *rt.H, s *state, full bool, fail func(string, string)) string {
 			if ent.seq != r.seq {
 				fail("release-seq", fmt.Sprintf("released %s with sequence number %d, the allocation seen has %d", id, r.seq, ent.seq))
 			}
-			staleKnode := false
 			if f.ownerJustifies(*ent, r.b) {
 				sig := "release-in-use"
-				if tr, ok := tracked[id]; ok && ent.kind == "t" && tr.KNode == "" {
-					// the node exists (again) but the collector never re-checked it: its cached knode for this tunnel
-					// address is still "" from when the node was gone (a failed release is not retried via the dirty set)
-					sig = "release-in-use-tunnel-stale-knode"
-					staleKnode = true
-				}
 				if k, ok := f.cnodes[ent.node]; (!ok || k < 0 || !f.knodes[k]) && !f.justifiedBy(f.cache, *ent, r.b) {
 					// the hosting node is gone/unknown AND the informer cache has lost the pod the API still has:
 					// the final check used the stale cache, no grace period (known trade-off).  When cache and API
@@ -554,7 +547,7 @@ func doSync(h *rt.H, s *state, full bool, fail func(string, string)) string {
 			}
 			// grace: only needed while the hosting Kubernetes node still exists
 			// (an allocation confirmed in an EARLIER sync while its node was gone needed no grace period then)
-			if k, ok := f.cnodes[ent.node]; ok && k >= 0 && f.knodes[k] && !staleKnode && !f.confGone[id] {
+			if k, ok := f.cnodes[ent.node]; ok && k >= 0 && f.knodes[k] && !f.confGone[id] {
 				t0, seen := f.since[id]
 				if f.grace <= 0 || !seen || f.now-t0 <= f.grace {
 					fail("release-before-grace", fmt.Sprintf("released %s on an existing node before the grace period elapsed (grace=%d now=%d candidateSince=%d seen=%v)", id, f.grace, f.now, t0, seen))
